@@ -60,6 +60,13 @@ FIRST_MISSED = {
     'c08-h': 'contexts `*-after-deciding`: the reference follows an operand that already decides the && / || chain',
     'c09-h': 'quoted look-alikes of the markers `:>`, `<<EOF`, `<<`, `-rel` in the quoted-option group',
     'c10-h': '`-existing-*` arguments whose PATH is, or goes through, a symbolic link',
+    'c12-g': 'FILE-NAMEs that are exactly one reference to a string symbol, in arguments whose default relativity is home',
+    'c12-h': 'kind F: `cd -rel SYMBOL` before / after the creating instruction, run in a fresh interpreter (what an '
+             'instruction accepts must not depend on what was read before it)',
+    'c14-h': 'family `equals-neg-samesize`: two home files of equal size and equal modification time, different contents '
+             '(the first run reported it as caught: that was a false alarm of M4, see section 6)',
+    'c15-h': 'literal case: one file named by two spellings in a files-condition',
+    'c18-g': 'text special to str.format / % (`{`, `}`, `{0}`, `%s`) in integers, regexes, replacements, names',
 }
 
 
